@@ -89,9 +89,9 @@ type World struct {
 	decls   []*refmodel.Decl
 	closed  bool
 	// Lookup resolves filter references against the committed store.
-	stepping *Pair
+	stepping   *Pair
 	preMigrate func(db *fakepg.DB)
-	mu       sync.Mutex
+	mu         sync.Mutex
 }
 
 // NewWorld validates and migrates the configuration through shovel's own code
